@@ -1,4 +1,679 @@
-use vf_explore::{Report, Value};
-use crate::classes::Classes;
-pub fn run(_rep: &mut Report) {}
-pub fn replay_case(_case: &Value, _verbose: bool) -> Classes { Classes::new() }
+//! C10 — variadic collections behave as sets / multisets of tuples.
+//!
+//! Every history (no deduplication: the hash tables' hidden capacity may matter) of
+//! insert / extend / drain operations over the tuple domain {0,1}x{0,1} is executed on the REAL
+//! `VariadicHashSet`, `VariadicCountedHashSet`, `VariadicColumnMultiset`; after every operation the
+//! object is compared with a `BTreeMap<tuple, count>` model. All pairs of distinct reachable
+//! contents are then compared with `==`.
+use std::collections::BTreeMap;
+use std::hash::{BuildHasherDefault, DefaultHasher};
+
+use variadics::variadic_collections::{VariadicCollection, VariadicColumnMultiset, VariadicCountedHashSet, VariadicHashSet};
+use variadics::{var_args, var_expr, var_type};
+use vf_explore::{Report, Stats, Value, catch, json, ncpu};
+
+use crate::classes::{Acc, Classes, par_acc};
+
+pub type Tup = (u8, u8);
+type V2 = var_type!(u8, u8);
+/// Deterministic hasher (SipHash, zero keys): a failing history reproduces bit-for-bit.
+type H = BuildHasherDefault<DefaultHasher>;
+pub type Model = BTreeMap<Tup, usize>;
+
+fn v(t: Tup) -> V2 {
+    var_expr!(t.0, t.1)
+}
+fn un(r: var_type!(&u8, &u8)) -> Tup {
+    let var_args!(a, b) = r;
+    (*a, *b)
+}
+fn own(r: V2) -> Tup {
+    let var_args!(a, b) = r;
+    (a, b)
+}
+const DOM: [Tup; 4] = [(0, 0), (0, 1), (1, 0), (1, 1)];
+/// tuples that are never inserted (negative membership)
+const ABSENT: [Tup; 2] = [(2, 2), (0, 2)];
+
+fn sorted(mut x: Vec<Tup>) -> Vec<Tup> {
+    x.sort();
+    x
+}
+
+pub trait Coll: Sized + Clone + Default + Send + Sync {
+    const NAME: &'static str;
+    /// keeps each distinct tuple once
+    const IS_SET: bool;
+    fn ins(&mut self, t: Tup) -> bool;
+    fn ext(&mut self, ts: &[Tup]);
+    /// drain(): take `k` items (usize::MAX = all), then drop the iterator
+    fn drain_take(&mut self, k: usize) -> Vec<Tup>;
+    fn len_(&self) -> usize;
+    fn empty(&self) -> bool;
+    fn has(&self, t: Tup) -> bool;
+    /// inherent `get`: None = the type has no `get`; Some(None) = not found; Some(Some((tuple, count)))
+    fn get_(&self, t: Tup) -> Option<Option<(Tup, usize)>>;
+    fn items(&self) -> Vec<Tup>;
+    fn into_items(self) -> Vec<Tup>;
+    /// `==` (None = the type has no PartialEq)
+    fn equ(&self, o: &Self) -> Option<bool>;
+    /// FromIterator (None = not implemented for the type)
+    fn collect_from(ts: &[Tup]) -> Option<Self>;
+}
+
+impl Coll for VariadicHashSet<V2, H> {
+    const NAME: &'static str = "VariadicHashSet";
+    const IS_SET: bool = true;
+    fn ins(&mut self, t: Tup) -> bool {
+        VariadicCollection::insert(self, v(t))
+    }
+    fn ext(&mut self, ts: &[Tup]) {
+        Extend::extend(self, ts.iter().map(|t| v(*t)))
+    }
+    fn drain_take(&mut self, k: usize) -> Vec<Tup> {
+        sorted(VariadicCollection::drain(self).take(k).map(own).collect())
+    }
+    fn len_(&self) -> usize {
+        VariadicCollection::len(self)
+    }
+    fn empty(&self) -> bool {
+        VariadicCollection::is_empty(self)
+    }
+    fn has(&self, t: Tup) -> bool {
+        VariadicCollection::contains(self, var_expr!(&t.0, &t.1))
+    }
+    fn get_(&self, t: Tup) -> Option<Option<(Tup, usize)>> {
+        Some(self.get(var_expr!(&t.0, &t.1)).map(|r| ((r.0, r.1.0), 1)))
+    }
+    fn items(&self) -> Vec<Tup> {
+        sorted(VariadicCollection::iter(self).map(un).collect())
+    }
+    fn into_items(self) -> Vec<Tup> {
+        sorted(IntoIterator::into_iter(self).map(own).collect())
+    }
+    fn equ(&self, o: &Self) -> Option<bool> {
+        Some(self == o)
+    }
+    fn collect_from(ts: &[Tup]) -> Option<Self> {
+        Some(ts.iter().map(|t| v(*t)).collect())
+    }
+}
+
+impl Coll for VariadicCountedHashSet<V2, H> {
+    const NAME: &'static str = "VariadicCountedHashSet";
+    const IS_SET: bool = false;
+    fn ins(&mut self, t: Tup) -> bool {
+        VariadicCollection::insert(self, v(t))
+    }
+    fn ext(&mut self, ts: &[Tup]) {
+        Extend::extend(self, ts.iter().map(|t| v(*t)))
+    }
+    fn drain_take(&mut self, k: usize) -> Vec<Tup> {
+        sorted(VariadicCollection::drain(self).take(k).map(own).collect())
+    }
+    fn len_(&self) -> usize {
+        VariadicCollection::len(self)
+    }
+    fn empty(&self) -> bool {
+        VariadicCollection::is_empty(self)
+    }
+    fn has(&self, t: Tup) -> bool {
+        VariadicCollection::contains(self, var_expr!(&t.0, &t.1))
+    }
+    fn get_(&self, t: Tup) -> Option<Option<(Tup, usize)>> {
+        Some(self.get(var_expr!(&t.0, &t.1)).map(|(r, c)| ((r.0, r.1.0), *c)))
+    }
+    fn items(&self) -> Vec<Tup> {
+        sorted(VariadicCollection::iter(self).map(un).collect())
+    }
+    fn into_items(self) -> Vec<Tup> {
+        sorted(IntoIterator::into_iter(self).map(own).collect())
+    }
+    fn equ(&self, o: &Self) -> Option<bool> {
+        Some(self == o)
+    }
+    fn collect_from(ts: &[Tup]) -> Option<Self> {
+        Some(ts.iter().map(|t| v(*t)).collect())
+    }
+}
+
+impl Coll for VariadicColumnMultiset<V2> {
+    const NAME: &'static str = "VariadicColumnMultiset";
+    const IS_SET: bool = false;
+    fn ins(&mut self, t: Tup) -> bool {
+        VariadicCollection::insert(self, v(t))
+    }
+    fn ext(&mut self, ts: &[Tup]) {
+        Extend::extend(self, ts.iter().map(|t| v(*t)))
+    }
+    fn drain_take(&mut self, k: usize) -> Vec<Tup> {
+        sorted(VariadicCollection::drain(self).take(k).map(own).collect())
+    }
+    fn len_(&self) -> usize {
+        VariadicCollection::len(self)
+    }
+    fn empty(&self) -> bool {
+        VariadicCollection::is_empty(self)
+    }
+    fn has(&self, t: Tup) -> bool {
+        VariadicCollection::contains(self, var_expr!(&t.0, &t.1))
+    }
+    fn get_(&self, _t: Tup) -> Option<Option<(Tup, usize)>> {
+        None
+    }
+    fn items(&self) -> Vec<Tup> {
+        sorted(VariadicCollection::iter(self).map(un).collect())
+    }
+    fn into_items(self) -> Vec<Tup> {
+        sorted(IntoIterator::into_iter(self).map(own).collect())
+    }
+    fn equ(&self, _o: &Self) -> Option<bool> {
+        None
+    }
+    fn collect_from(_ts: &[Tup]) -> Option<Self> {
+        None
+    }
+}
+
+#[derive(Clone, Debug, PartialEq, Eq, Hash)]
+pub enum Op {
+    Insert(Tup),
+    Extend(Vec<Tup>),
+    DrainAll,
+    /// take one item from `drain()`, then drop the iterator
+    DrainTake1,
+}
+
+fn op_json(op: &Op) -> Value {
+    match op {
+        Op::Insert(t) => json!({"insert": [t.0, t.1]}),
+        Op::Extend(ts) => json!({"extend": ts.iter().map(|t| json!([t.0, t.1])).collect::<Vec<_>>()}),
+        Op::DrainAll => json!("drain"),
+        Op::DrainTake1 => json!("drain_take1"),
+    }
+}
+fn tup_of(v: &Value) -> Tup {
+    let a = v.as_array().unwrap();
+    (a[0].as_u64().unwrap() as u8, a[1].as_u64().unwrap() as u8)
+}
+fn op_of(v: &Value) -> Op {
+    if let Some(s) = v.as_str() {
+        return match s {
+            "drain" => Op::DrainAll,
+            "drain_take1" => Op::DrainTake1,
+            other => panic!("unknown op {other}"),
+        };
+    }
+    if let Some(t) = v.get("insert") {
+        return Op::Insert(tup_of(t));
+    }
+    Op::Extend(v["extend"].as_array().unwrap().iter().map(tup_of).collect())
+}
+fn op_str(op: &Op) -> String {
+    let t = |t: &Tup| format!("{}{}", t.0, t.1);
+    match op {
+        Op::Insert(x) => format!("i{}", t(x)),
+        Op::Extend(ts) => format!("e[{}]", ts.iter().map(t).collect::<Vec<_>>().join(",")),
+        Op::DrainAll => "d".into(),
+        Op::DrainTake1 => "d1".into(),
+    }
+}
+fn hist_str(h: &[Op]) -> String {
+    h.iter().map(op_str).collect::<Vec<_>>().join(";")
+}
+
+/// full alphabet: 4 inserts, extend with every sequence of length 0..=2 (21), 2 drains = 27 ops
+pub fn alphabet_full() -> Vec<Op> {
+    let mut o: Vec<Op> = DOM.iter().map(|t| Op::Insert(*t)).collect();
+    o.push(Op::Extend(vec![]));
+    for a in DOM {
+        o.push(Op::Extend(vec![a]));
+    }
+    for a in DOM {
+        for b in DOM {
+            o.push(Op::Extend(vec![a, b]));
+        }
+    }
+    o.push(Op::DrainAll);
+    o.push(Op::DrainTake1);
+    o
+}
+/// reduced alphabet for the deepest level: 4 inserts, extend with every unordered pair (10), 2 drains
+pub fn alphabet_reduced() -> Vec<Op> {
+    let mut o: Vec<Op> = DOM.iter().map(|t| Op::Insert(*t)).collect();
+    for (i, a) in DOM.iter().enumerate() {
+        for b in &DOM[i..] {
+            o.push(Op::Extend(vec![*a, *b]));
+        }
+    }
+    o.push(Op::DrainAll);
+    o.push(Op::DrainTake1);
+    o
+}
+
+fn model_items(m: &Model) -> Vec<Tup> {
+    let mut o = vec![];
+    for (t, c) in m {
+        for _ in 0..*c {
+            o.push(*t);
+        }
+    }
+    o
+}
+fn model_add<C: Coll>(m: &mut Model, t: Tup) {
+    let e = m.entry(t).or_insert(0);
+    if C::IS_SET {
+        *e = 1;
+    } else {
+        *e += 1;
+    }
+}
+fn model_str(m: &Model) -> String {
+    let parts: Vec<String> = m.iter().map(|(t, c)| format!("{}{}x{}", t.0, t.1, c)).collect();
+    format!("{{{}}}", parts.join(","))
+}
+
+type Sink<'a> = &'a mut dyn FnMut(&str, String);
+
+/// Apply one operation to the real object and the model; judges what the operation itself returns.
+pub fn apply<C: Coll>(obj: &mut C, m: &mut Model, op: &Op, sink: Sink, st: &mut Stats) {
+    st.evaluations += 1;
+    st.transitions += 1;
+    match op {
+        Op::Insert(t) => {
+            model_add::<C>(m, *t);
+            match catch(|| obj.ins(*t)) {
+                Ok(r) => st.outcome(&(C::NAME, "insert_ret", r)),
+                Err(p) => sink("insert/panic", format!("insert({t:?}) panicked: {p}")),
+            }
+        }
+        Op::Extend(ts) => {
+            for t in ts {
+                model_add::<C>(m, *t);
+            }
+            if let Err(p) = catch(|| obj.ext(ts)) {
+                sink("extend/panic", format!("extend({ts:?}) panicked: {p}"));
+            }
+        }
+        Op::DrainAll => {
+            let want = model_items(m);
+            m.clear();
+            match catch(|| obj.drain_take(usize::MAX)) {
+                Ok(got) => {
+                    st.outcome(&(C::NAME, "drain", got.len()));
+                    if got != want {
+                        sink("drain/wrong", format!("drain() yielded {got:?}, model holds {want:?}"));
+                    }
+                }
+                Err(p) => sink("drain/panic", format!("drain() panicked: {p}")),
+            }
+        }
+        Op::DrainTake1 => {
+            let want = model_items(m);
+            m.clear();
+            match catch(|| obj.drain_take(1)) {
+                Ok(got) => {
+                    // the single item must be one of the held tuples (none if empty)
+                    let ok = if want.is_empty() { got.is_empty() } else { got.len() == 1 && want.contains(&got[0]) };
+                    if !ok {
+                        sink("drain/wrong", format!("first item of drain() = {got:?}, model holds {want:?}"));
+                    }
+                }
+                Err(p) => sink("drain/panic", format!("drain() (partially consumed) panicked: {p}")),
+            }
+        }
+    }
+}
+
+/// Compare every observation of one object with the model.
+pub fn check_node<C: Coll>(obj: &C, m: &Model, sink: Sink, st: &mut Stats) {
+    st.evaluations += 1;
+    let want_items = model_items(m);
+    let r = catch(|| {
+        let mut bad: Vec<(&'static str, String)> = vec![];
+        let len = obj.len_();
+        if len != want_items.len() {
+            bad.push(("len/wrong", format!("len() = {len}, model has {} element(s)", want_items.len())));
+        }
+        if obj.empty() != want_items.is_empty() {
+            bad.push(("is_empty/wrong", format!("is_empty() = {}, model has {} element(s)", obj.empty(), want_items.len())));
+        }
+        for t in DOM.iter().chain(ABSENT.iter()) {
+            let present = m.get(t).cloned().unwrap_or(0);
+            if obj.has(*t) != (present > 0) {
+                bad.push(("contains/wrong", format!("contains({t:?}) = {}, model count {present}", obj.has(*t))));
+            }
+            if let Some(g) = obj.get_(*t) {
+                let want = if present > 0 { Some((*t, present)) } else { None };
+                if g != want {
+                    bad.push(("get/wrong", format!("get({t:?}) = {g:?}, model says {want:?}")));
+                }
+            }
+        }
+        let it = obj.items();
+        if it != want_items {
+            bad.push(("iter/wrong", format!("iter() = {it:?}, model {want_items:?}")));
+        }
+        let c = obj.clone();
+        if let Some(e) = obj.equ(&c) {
+            if !e || c.equ(obj) != Some(true) {
+                bad.push(("eq/wrong", "a clone is not == to its original".to_string()));
+            }
+        }
+        if c.len_() != len || c.items() != it {
+            bad.push(("clone/wrong", format!("clone has len {} items {:?}", c.len_(), c.items())));
+        }
+        let into = c.into_items();
+        if into != want_items {
+            bad.push(("into_iter/wrong", format!("into_iter() = {into:?}, model {want_items:?}")));
+        }
+        // a collection rebuilt from the model's content (different insertion history / capacity)
+        let mut fresh = C::default();
+        fresh.ext(&want_items);
+        if let (Some(a), Some(b)) = (obj.equ(&fresh), fresh.equ(obj)) {
+            if !a || !b {
+                bad.push(("eq/wrong", format!("not == to a fresh collection extended with the same content {want_items:?} ({a}, reverse {b})")));
+            }
+        }
+        if let Some(col) = C::collect_from(&want_items) {
+            if obj.equ(&col) != Some(true) || col.items() != want_items {
+                bad.push(("from_iter/wrong", format!("FromIterator of {want_items:?} gives {:?}, == is {:?}", col.items(), obj.equ(&col))));
+            }
+        }
+        // one more insert must make the two differ, unless a set already holds the tuple
+        for t in DOM {
+            let mut more = obj.clone();
+            more.ins(t);
+            let same = C::IS_SET && m.contains_key(&t);
+            if let (Some(a), Some(b)) = (obj.equ(&more), more.equ(obj)) {
+                if a != same || b != same {
+                    bad.push(("eq/wrong", format!("== with a clone that additionally got {t:?}: {a} / reverse {b}, expected {same}")));
+                }
+            }
+        }
+        (bad, len)
+    });
+    match r {
+        Ok((bad, len)) => {
+            st.outcome(&(C::NAME, "len", len));
+            for (c, d) in bad {
+                sink(c, d);
+            }
+        }
+        Err(p) => sink("observe/panic", format!("an observation panicked: {p}")),
+    }
+}
+
+struct Ctx<'a> {
+    ops_by_level: &'a [Vec<Op>],
+    coll_idx: u64,
+}
+
+fn hist_order(h: &[Op], full: &[Op]) -> u64 {
+    // shorter histories first, then lexicographic in the full alphabet's order
+    let mut code = 0u64;
+    for op in h {
+        let i = full.iter().position(|o| o == op).unwrap_or(0) as u64;
+        code = code * 28 + i + 1;
+    }
+    ((h.len() as u64) << 40) | code
+}
+
+/// content -> shortest/first history reaching it
+type Reps = BTreeMap<Vec<Tup>, Vec<Op>>;
+
+fn dfs<C: Coll>(ctx: &Ctx, obj: &C, m: &Model, hist: &mut Vec<Op>, acc: &mut Acc, reps: &mut Reps, full: &[Op]) {
+    // the state reached by `hist`
+    acc.st.states += 1;
+    acc.st.traces += 1;
+    let mut hits: Vec<(String, String)> = vec![];
+    check_node(obj, m, &mut |c, d| hits.push((c.to_string(), d)), &mut acc.st);
+    let content = model_items(m);
+    match reps.get(&content) {
+        Some(h) if h.len() <= hist.len() => {}
+        _ => {
+            reps.insert(content, hist.clone());
+        }
+    }
+    record_hits::<C>(ctx.coll_idx, hist, m, hits, acc, full);
+    let level = hist.len();
+    if level >= ctx.ops_by_level.len() {
+        return;
+    }
+    for op in &ctx.ops_by_level[level] {
+        let mut o2 = obj.clone();
+        let mut m2 = m.clone();
+        let mut hits: Vec<(String, String)> = vec![];
+        apply(&mut o2, &mut m2, op, &mut |c, d| hits.push((c.to_string(), d)), &mut acc.st);
+        hist.push(op.clone());
+        record_hits::<C>(ctx.coll_idx, hist, &m2, hits, acc, full);
+        dfs(ctx, &o2, &m2, hist, acc, reps, full);
+        hist.pop();
+    }
+}
+
+fn record_hits<C: Coll>(coll_idx: u64, hist: &[Op], m: &Model, hits: Vec<(String, String)>, acc: &mut Acc, full: &[Op]) {
+    for (c, d) in hits {
+        let order = (coll_idx * 10, hist_order(hist, full));
+        acc.cl.hit(&format!("{}/{c}", C::NAME), order, || {
+            (
+                format!("history={}", hist_str(hist)),
+                format!("{} after [{}] (model {}): {d}", C::NAME, hist_str(hist), model_str(m)),
+                json!({"coll": C::NAME, "kind": "history", "ops": hist.iter().map(op_json).collect::<Vec<_>>()}),
+            )
+        });
+    }
+}
+
+/// Replay a history on a FRESH object (no clones), checking after every operation.
+fn replay_history<C: Coll>(ops: &[Op], verbose: bool) -> Classes {
+    let mut cl = Classes::new();
+    let mut st = Stats::new();
+    let mut obj = C::default();
+    let mut m = Model::new();
+    let mut hits: Vec<(String, String)> = vec![];
+    check_node(&obj, &m, &mut |c, d| hits.push((c.to_string(), d)), &mut st);
+    for (i, op) in ops.iter().enumerate() {
+        apply(&mut obj, &mut m, op, &mut |c, d| hits.push((c.to_string(), format!("step {i}: {d}"))), &mut st);
+        check_node(&obj, &m, &mut |c, d| hits.push((c.to_string(), format!("after step {i} ({}): {d}", op_str(op)))), &mut st);
+        if verbose {
+            println!("  step {i} {:12} -> len {} items {:?}   model {}", op_str(op), obj.len_(), obj.items(), model_str(&m));
+        }
+    }
+    for (c, d) in hits {
+        if verbose {
+            println!("  observed: {c}: {d}");
+        }
+        cl.hit(&format!("{}/{c}", C::NAME), (0, 0), || (String::new(), d.clone(), Value::Null));
+    }
+    cl
+}
+
+fn build<C: Coll>(ops: &[Op]) -> (C, Model) {
+    let mut obj = C::default();
+    let mut m = Model::new();
+    let mut st = Stats::new();
+    for op in ops {
+        apply(&mut obj, &mut m, op, &mut |_, _| {}, &mut st);
+    }
+    (obj, m)
+}
+
+fn replay_pair<C: Coll>(a: &[Op], b: &[Op], verbose: bool) -> Classes {
+    let mut cl = Classes::new();
+    let (oa, ma) = build::<C>(a);
+    let (ob, mb) = build::<C>(b);
+    let got = catch(|| oa.equ(&ob));
+    if verbose {
+        println!("  a = {} (reveals {:?}), b = {} (reveals {:?}): == -> {got:?}", model_str(&ma), oa.items(), model_str(&mb), ob.items());
+    }
+    match got {
+        Ok(Some(e)) if e == (ma == mb) => {}
+        Ok(None) => {}
+        Ok(Some(e)) => cl.hit(&format!("{}/eq_pair/wrong", C::NAME), (0, 0), || (String::new(), format!("== is {e}, models equal: {}", ma == mb), Value::Null)),
+        Err(p) => cl.hit(&format!("{}/eq_pair/panic", C::NAME), (0, 0), || (String::new(), format!("== panicked: {p}"), Value::Null)),
+    }
+    cl
+}
+
+fn ops_of(v: &Value) -> Vec<Op> {
+    v.as_array().expect("ops").iter().map(op_of).collect()
+}
+
+fn replay_coll<C: Coll>(case: &Value, verbose: bool) -> Classes {
+    match case["kind"].as_str().unwrap_or("") {
+        "history" => replay_history::<C>(&ops_of(&case["ops"]), verbose),
+        "pair" => replay_pair::<C>(&ops_of(&case["a"]), &ops_of(&case["b"]), verbose),
+        other => panic!("unknown case kind {other}"),
+    }
+}
+
+pub fn replay_case(case: &Value, verbose: bool) -> Classes {
+    match case["coll"].as_str().unwrap_or("") {
+        "VariadicHashSet" => replay_coll::<VariadicHashSet<V2, H>>(case, verbose),
+        "VariadicCountedHashSet" => replay_coll::<VariadicCountedHashSet<V2, H>>(case, verbose),
+        "VariadicColumnMultiset" => replay_coll::<VariadicColumnMultiset<V2>>(case, verbose),
+        other => panic!("unknown collection {other}"),
+    }
+}
+
+fn run_coll<C: Coll>(coll_idx: u64, ops_by_level: &[Vec<Op>], threads: usize) -> Acc {
+    let full = alphabet_full();
+    let ctx = Ctx { ops_by_level, coll_idx };
+    // shard on the first two operations
+    let l0 = &ops_by_level[0];
+    let l1 = &ops_by_level[1];
+    let shards: Vec<(Op, Op)> = l0.iter().flat_map(|a| l1.iter().map(move |b| (a.clone(), b.clone()))).collect();
+    let reps_all = std::sync::Mutex::new(Reps::new());
+    let mut acc = Acc::new();
+    // root and depth-1 states (the shards check depth >= 2)
+    {
+        let mut reps = Reps::new();
+        let top = Ctx { ops_by_level: &ops_by_level[..1], coll_idx };
+        dfs(&top, &C::default(), &Model::new(), &mut vec![], &mut acc, &mut reps, &full);
+        reps_all.lock().unwrap().extend(reps);
+    }
+    let shard_acc = par_acc(shards.len(), threads, |i| {
+        let mut a = Acc::new();
+        let mut reps = Reps::new();
+        let (op0, op1) = &shards[i];
+        let mut obj = C::default();
+        let mut m = Model::new();
+        // depth-1 and depth-2 transitions were/are judged: the first op in the block above (checked
+        // there), the second here
+        let mut sink_st = Stats::new();
+        apply(&mut obj, &mut m, op0, &mut |_, _| {}, &mut sink_st);
+        let mut hits: Vec<(String, String)> = vec![];
+        apply(&mut obj, &mut m, op1, &mut |c, d| hits.push((c.to_string(), d)), &mut a.st);
+        let mut hist = vec![op0.clone(), op1.clone()];
+        record_hits::<C>(coll_idx, &hist, &m, hits, &mut a, &full);
+        dfs(&ctx, &obj, &m, &mut hist, &mut a, &mut reps, &full);
+        let mut g = reps_all.lock().unwrap();
+        for (k, h) in reps {
+            match g.get(&k) {
+                Some(old) if (old.len(), hist_order(old, &full)) <= (h.len(), hist_order(&h, &full)) => {}
+                _ => {
+                    g.insert(k, h);
+                }
+            }
+        }
+        a
+    });
+    acc.merge(shard_acc);
+    let reps = reps_all.into_inner().unwrap();
+    for k in reps.keys() {
+        acc.st.nontrivial(&(C::NAME, "content", k.clone()));
+    }
+    acc.count_n(&format!("{}:distinct_contents", C::NAME), reps.len() as u64);
+
+    // all ordered pairs of distinct reachable contents, rebuilt from their histories
+    let built: Vec<(C, Model, &Vec<Op>)> = reps.values().map(|h| { let (o, m) = build::<C>(h); (o, m, h) }).collect();
+    if built.first().map(|b| b.0.equ(&b.0).is_some()).unwrap_or(false) {
+        let n = built.len();
+        let built_ref = &built;
+        let pa = par_acc(n, threads, |i| {
+            let mut a = Acc::new();
+            for j in 0..n {
+                let (oa, ma, ha) = &built_ref[i];
+                let (ob, mb, hb) = &built_ref[j];
+                a.st.evaluations += 1;
+                a.st.nontrivial(&(C::NAME, "pair", i, j));
+                let got = catch(|| oa.equ(ob));
+                let order = (coll_idx * 10 + 1, (i * n + j) as u64);
+                let mk = |d: String| {
+                    (
+                        format!("a={},b={}", hist_str(ha), hist_str(hb)),
+                        format!("{}: {d} (a reached by [{}] = {}, b by [{}] = {})", C::NAME, hist_str(ha), model_str(ma), hist_str(hb), model_str(mb)),
+                        json!({"coll": C::NAME, "kind": "pair", "a": ha.iter().map(op_json).collect::<Vec<_>>(), "b": hb.iter().map(op_json).collect::<Vec<_>>()}),
+                    )
+                };
+                match got {
+                    Ok(Some(e)) => {
+                        a.st.outcome(&(C::NAME, "eq_pair", e));
+                        if e != (ma == mb) {
+                            a.cl.hit(&format!("{}/eq_pair/wrong", C::NAME), order, || mk(format!("== is {e}, models equal: {}", ma == mb)));
+                        }
+                    }
+                    Ok(None) => {}
+                    Err(p) => a.cl.hit(&format!("{}/eq_pair/panic", C::NAME), order, || mk(format!("== panicked: {p}"))),
+                }
+            }
+            a
+        });
+        acc.merge(pa);
+    }
+    acc
+}
+
+pub fn run(rep: &mut Report) {
+    let thorough = rep.thorough();
+    let threads = ncpu().min(16);
+    let full = alphabet_full();
+    let reduced = alphabet_reduced();
+    let ops_by_level: Vec<Vec<Op>> = if thorough {
+        vec![full.clone(), full.clone(), full.clone(), full.clone(), full.clone(), reduced.clone()]
+    } else {
+        vec![full.clone(), full.clone(), full.clone(), full.clone()]
+    };
+    rep.rule = "every operation sequence (a tree, NOT deduplicated, because hidden hash-table capacity depends on the path) over the op alphabet; \
+                one case = one state reached by one history, compared with the model; non-trivial = distinct reachable content and \
+                ordered pairs of distinct contents"
+        .into();
+    rep.explanation = "after every operation: len, is_empty, contains (4 domain + 2 absent tuples), get (tuple and count), iter and into_iter as \
+                       multisets, clone, == with clone / with a fresh collection of the same content / with FromIterator / with a clone holding \
+                       one more tuple; drain must yield exactly the content and leave the collection empty (also when dropped after one item); \
+                       then == on every ordered pair of distinct reachable contents rebuilt from their shortest histories. Model: BTreeMap<tuple,count> \
+                       (count capped at 1 for VariadicHashSet)."
+        .into();
+    rep.assume("hasher = BuildHasherDefault<DefaultHasher> (fixed SipHash keys) so that every history is bit-for-bit reproducible; hash seeds are not enumerated");
+    rep.assume("insert()'s bool return is recorded but not judged; VariadicColumnMultiset has no get / PartialEq / FromIterator, those checks are skipped for it");
+    rep.assume("a drain() iterator dropped after one item must leave the collection empty (std drain semantics); only self-consistency is otherwise demanded");
+    rep.bound("tuple_domain", "{0,1}x{0,1}");
+    rep.bound("depth", ops_by_level.len());
+    rep.bound("ops_per_level", json!(ops_by_level.iter().map(|l| l.len()).collect::<Vec<_>>()));
+    rep.bound("alphabet_full", json!(full.iter().map(op_str).collect::<Vec<_>>()));
+    rep.bound("alphabet_reduced_last_level", json!(reduced.iter().map(op_str).collect::<Vec<_>>()));
+    let mut all = Classes::new();
+    let mut counters = BTreeMap::new();
+    macro_rules! coll {
+        ($t:ty, $i:expr) => {{
+            let t0 = std::time::Instant::now();
+            let acc = run_coll::<$t>($i, &ops_by_level, threads);
+            println!("[vf_coll] C10 {}: {} states, {} evaluations, {:.1}s", <$t>::NAME, acc.st.states, acc.st.evaluations, t0.elapsed().as_secs_f64());
+            all.merge(acc.cl.clone());
+            for (k, v) in &acc.counters {
+                counters.insert(k.clone(), *v);
+            }
+            rep.section(<$t>::NAME, acc.st);
+        }};
+    }
+    coll!(VariadicHashSet<V2, H>, 0);
+    coll!(VariadicCountedHashSet<V2, H>, 1);
+    coll!(VariadicColumnMultiset<V2>, 2);
+    println!("[vf_coll] C10 counters: {counters:?}");
+    rep.sections.insert("counters".into(), json!(counters));
+    let mut st = Stats::new();
+    let listed = all.emit(&mut st, "C10", &|case| replay_case(case, false));
+    rep.section("violation_classes", st);
+    rep.sections.insert("violation_classes_all".into(), listed);
+}
